@@ -536,7 +536,7 @@ def w_mask6(w, v):  # RFC 4760 5
 
 
 def w_aigp(w, v):  # RFC 7311 3: TLV type 1, length 11, 8-octet metric; 3.4: not sent on a session where AIGP is not enabled (EBGP default)
-    if not w.ibgp:
+    if not w.ibgp and not getattr(w, 'aigp', False):
         return [('.absent-on-ebgp', 26 in w.by, False)]
     x = w.need(26)
     return [('.length', len(x), 11), ('.tlv-type', x[0], 1), ('.tlv-length', O.u16(x, 1), 11), ('metric', u64(x, 3), v[0])]
@@ -1290,6 +1290,59 @@ def h_flow_sequence(ctx):
     return [i, j, got]
 
 
+# ----------------------------------------------------------------------------- one definition, several sessions
+
+TWO_SESSIONS = [  # (case, values): attributes whose octets depend on the session they are sent on
+    ('static/aigp', [100]), ('static/local-preference', [200]), ('static/as-path-1', [70000]), ('static/aggregator', [70000]),
+    ('static/med', [5]), ('static/path-information', [7]),
+]
+SESSIONS9 = [s + (False,) for s in ALL8] + [(False, True, False, True), (False, False, False, True)]  # + EBGP with `capability { aigp enable; }`
+
+
+def h_two_sessions(ctx):
+    """ONE accepted definition (parsed once: one route object, as `announce route` to several neighbors hands out)
+    encoded for TWO sessions one after the other.  On each it carries the value as written, in the form that session
+    negotiated (AS number size, IBGP/EBGP defaults, ADD-PATH, AIGP enabled or not) - whatever session was served before."""
+    name, v = TWO_SESSIONS[ctx.choice('case', len(TWO_SESSIONS))]
+    case_ = CASES[name]
+    a = ctx.choice('first-session', len(SESSIONS9))
+    b = ctx.choice('second-session', len(SESSIONS9))
+    ctx.assume(a != b)
+    out = parse_text(ctx, case_.section, case_.words(v))
+    if out[0] != 'accept' or len(out[1]) != 1:
+        ctx.check('rfc-value-accepted', False, sig='C18:two-sessions:%s:refused' % case_.kw, info={'outcome': str(out)[:200]})
+        return [name, 'refuse']
+    route = out[1][0]
+    ctx.cover('accept')
+    res = []
+    for order, si in enumerate((a, b)):
+        ibgp, asn4, ap, aigp = SESSIONS9[si]
+        neg = K.session('out', local_as=65000, peer_as=65000 if ibgp else 65001, families=tuple(case_.fam), asn4=True, peer_asn4=asn4,
+                        addpath='send/receive' if ap else None, addpath_families=tuple(case_.fam) if ap else (), **({'aigp': True} if aigp else {}))
+        if aigp:
+            ctx.cover('aigp-session')
+        sname = shape_name((ibgp, asn4, ap)) + ('+aigp' if aigp else '')
+        msgs = list(UpdateCollection([RoutedNLRI(route.nlri, route.nexthop)], [], route.attributes).messages(neg))
+        try:
+            w = W(ctx, msgs[0], (ibgp, asn4, ap), case_.famcode)
+            w.aigp = aigp
+            fields = case_.wire(w, v)
+        except O.Malformed as bad:
+            ctx.check('well-formed', False, sig='C18:two-sessions:%s:malformed:%s' % (case_.kw, bad.what), info={'session': sname, 'served': order + 1})
+            return [name, 'malformed']
+        except Missing as miss:
+            ctx.check('value-sent', False, sig='C18:two-sessions:%s:not-sent-on-%s-session' % (case_.kw, ('first', 'second')[order]),
+                      info={'session': sname, 'before': shape_name(SESSIONS9[a][:3]) if order else None, 'what': str(miss)})
+            return [name, 'missing']
+        for field, got, want in fields:
+            ctx.check('wire-carries-the-value-as-written:' + field, sx_eq(got, want),
+                      sig='C18:two-sessions:%s:%s:wrong-on-%s-session' % (case_.kw, field, ('first', 'second')[order]),
+                      info={'session': sname, 'served-before': (shape_name(SESSIONS9[a][:3]) + ('+aigp' if SESSIONS9[a][3] else '')) if order else None,
+                            'field': field, 'wire': got, 'written': want})
+        res.append(bytes(msgs[0]).hex())
+    return [name, a, b, res]
+
+
 # ----------------------------------------------------------------------------- units
 
 def units(tier):
@@ -1303,5 +1356,6 @@ def units(tier):
                        max_paths=40000, weight=len(shapes) * 3 ** len(case_.nums)))
     for group in SAMPLES:
         us.append(Unit(group, lambda ctx, g=group: h_samples(ctx, g), must_cover=('accept', 'refuse'), max_seconds=400, weight=30))
+    us.append(Unit('static/one-definition-two-sessions', h_two_sessions, must_cover=('accept', 'aigp-session'), max_seconds=600, weight=60))
     us.append(Unit('lexical/flow/sequence', h_flow_sequence, must_cover=('accept',), max_seconds=400, weight=30))
     return us
